@@ -67,13 +67,17 @@ func (p *pipeline) write(f fr) {
 }
 
 // mkFrames: video every stepMs with a key frame every gop frames, optional audio frame after each video frame.
-func mkFrames(n int, stepMs int64, gop int, audio bool, audioOnlyFrom, audioOnlyTo int) []fr {
+func mkFrames(n int, stepMs int64, gop int, audio bool, audioOnlyFrom, audioOnlyTo int, firstKeyAt ...int) []fr {
+	fk := 0 // index of the first key frame: the stream may start in mid-GOP
+	if len(firstKeyAt) > 0 {
+		fk = firstKeyAt[0]
+	}
 	var out []fr
 	for i := 0; i < n; i++ {
 		t := 1000 + int64(i)*stepMs
 		if !(i >= audioOnlyFrom && i < audioOnlyTo) {
 			typ, nri := byte(1), byte(2)
-			if i%gop == 0 {
+			if i >= fk && (i-fk)%gop == 0 {
 				typ, nri = 5, 3
 			}
 			out = append(out, fr{false, typ == 5, t, hx.NAL(nri, typ, 30+i%7, byte(i))})
@@ -165,6 +169,7 @@ func sequential(rep *report.Report) {
 		aoFrom, aoTo    int
 		fragment        int
 		disk            bool
+		firstKey        int
 	}
 	var cfgs []cfgT
 	nf := 26
@@ -174,21 +179,32 @@ func sequential(rep *report.Report) {
 	for _, disk := range []bool{false, true} {
 		for _, gop := range []int{2, 5, 7, 12} {
 			for _, audio := range []bool{true, false} {
-				cfgs = append(cfgs, cfgT{fmt.Sprintf("step200 gop%d audio=%v disk=%v", gop, audio, disk), nf, 200, gop, audio, -1, -1, 1, disk})
+				cfgs = append(cfgs, cfgT{fmt.Sprintf("step200 gop%d audio=%v disk=%v", gop, audio, disk), nf, 200, gop, audio, -1, -1, 1, disk, 0})
 			}
 		}
 		cfgs = append(cfgs,
-			cfgT{fmt.Sprintf("step1000 gop1 disk=%v", disk), 12, 1000, 1, true, -1, -1, 1, disk},
-			cfgT{fmt.Sprintf("step40 gop25 fragment1 disk=%v", disk), 110, 40, 25, true, -1, -1, 1, disk},
-			cfgT{fmt.Sprintf("audio-only gap disk=%v", disk), 40, 200, 5, true, 12, 30, 1, disk},
-			cfgT{fmt.Sprintf("step6000 gop1 fragment5 disk=%v", disk), 8, 6000, 1, false, -1, -1, 5, disk},
+			cfgT{fmt.Sprintf("step1000 gop1 disk=%v", disk), 12, 1000, 1, true, -1, -1, 1, disk, 0},
+			cfgT{fmt.Sprintf("step40 gop25 fragment1 disk=%v", disk), 110, 40, 25, true, -1, -1, 1, disk, 0},
+			cfgT{fmt.Sprintf("audio-only gap disk=%v", disk), 40, 200, 5, true, 12, 30, 1, disk, 0},
+			cfgT{fmt.Sprintf("step6000 gop1 fragment5 disk=%v", disk), 8, 6000, 1, false, -1, -1, 5, disk, 0},
 		)
+		// streams that start in mid-GOP (a pull that joins a running camera): only the first segment may
+		// begin with a non-key picture, however late the first key frame comes
+		for _, fk := range []int{1, 3, 6, 9, 12, 15} {
+			for _, gop := range []int{3, 12} {
+				for _, audio := range []bool{true, false} {
+					if !disk || (fk%3 == 0 && gop == 12) {
+						cfgs = append(cfgs, cfgT{fmt.Sprintf("mid-GOP start firstKey=%d gop%d audio=%v disk=%v", fk, gop, audio, disk), nf + 6, 200, gop, audio, -1, -1, 1, disk, fk})
+					}
+				}
+			}
+		}
 	}
 	for _, c := range cfgs {
 		if rep.TimeUp() {
 			return
 		}
-		runSequential(rep, c.name, mkFrames(c.n, c.step, c.gop, c.audio, c.aoFrom, c.aoTo), c.fragment, c.disk)
+		runSequential(rep, c.name, mkFrames(c.n, c.step, c.gop, c.audio, c.aoFrom, c.aoTo, c.firstKey), c.fragment, c.disk)
 	}
 }
 
